@@ -129,7 +129,10 @@ class SimA:
             if os.path.exists(self.path + "-journal"):
                 shutil.copyfile(self.path + "-journal", dst + "-journal")
             snaps.append(dst)
+            wire_at.append(len(w.writer.out))
 
+        wire_at = []
+        wire0 = len(w.writer.out)
         self.steps.before = before
         try:
             v = self._apply(ev, w, c, st)
@@ -137,6 +140,8 @@ class SimA:
             self.steps.before = None
         if v is None:
             v = self._killed_states_consistent(snaps, ev, st)
+        if v is None:
+            v = self._wire_never_ahead_of_journal(snaps, wire_at, wire0, ev, st)
         for p_ in snaps:
             for q_ in (p_, p_ + "-journal"):
                 if os.path.exists(q_):
@@ -161,6 +166,38 @@ class SimA:
                 return {"signature": f"killed_between_journal_operations|outbound_row_without_counter:{ev[0]}_{ev[1]}",
                         "clause": "killed at any point while sending or receiving ... without ever reusing an outbound MsgSeqNum for a different message",
                         "detail": {"event": ev, "sql_step": i, "highest_outbound_row": mx, "stored_last_outbound": r[1], "state_before": st}}
+        return None
+
+    def _wire_never_ahead_of_journal(self, snaps, wire_at, wire0, ev, st):
+        """Kill at any SQL-step boundary of this event: every frame that had ALREADY been handed to the transport under a
+        new number at that moment must be in the file the dead process leaves behind (row + counter) - otherwise the
+        next incarnation reuses a number the peer has already seen for a different message."""
+        out = self.w.writer.out
+        for i, path in enumerate(snaps):
+            new = []
+            for raw in out[wire0:wire_at[i]]:
+                f, _ = refs.try_parse(raw)
+                if not f:
+                    continue
+                d = refs.fdict(f)
+                if d.get("43") == "Y" or d.get("35") == "4":
+                    continue
+                new.append(int(d["34"]))
+            if not new:
+                continue
+            con = sqlite3.connect(path, timeout=0)
+            try:
+                r = con.execute("SELECT sessionId, outboundSeqNo FROM session WHERE targetCompId=? AND senderCompId=?",
+                                (self.w.T, self.w.S)).fetchone()
+                have = {x[0] for x in con.execute("SELECT seqNo FROM message WHERE session=? AND direction=1", (r[0],))} if r else set()
+            finally:
+                con.close()
+            for n in new:
+                if n not in have or r[1] < n:
+                    return {"signature": f"killed_between_journal_operations|on_wire_before_journaled:{ev[0]}_{ev[1]}",
+                            "clause": "killed at any point while sending ... comes back without ever reusing an outbound MsgSeqNum for a different message",
+                            "detail": {"event": ev, "sql_step": i, "number_on_wire": n, "rows_in_file": sorted(have),
+                                       "stored_last_outbound": r[1] if r else None, "state_before": st}}
         return None
 
     def _apply(self, ev, w, c, st):
